@@ -292,12 +292,16 @@ class Consumer:
         self.fail_at = set(fail_at)
         self.auto = False  # finish immediately (finish phase)
         self.failing = set()
+        self.extra = ((), {})   # extra arguments the sink was built with
         # odd consumer ids fail *inside* the returned future, even ones at the call
         self.late_failure = bool(cid % 2) if isinstance(cid, int) else False
 
-    def __call__(self, x):
+    def __call__(self, x, *a, **k):
         inv = self.n
         self.n += 1
+        if (a, k) != self.extra:
+            # sink(func, *args, **kwargs) hands its extra arguments to func after the element
+            x = ("wrong-sink-arguments", repr(a), repr(sorted(k.items())))
         # "cc": the user function was *called* (reached); "cs": it started handling the element
         self.log.add("cc", self.cid, inv, x, self.log.now(), getattr(self.log, "ctx", None))
         if self.mode == "coro":
@@ -375,10 +379,15 @@ class Jobs:
         # even invocation indices in fail_at fail inside the job, odd ones at the call
         self.fail_at = {i for i in fail_at if i % 2 == 0}
         self.fail_sync_at = {i for i in fail_at if i % 2 == 1}
+        self.extra = ((), {})
 
-    def __call__(self, x):
+    def __call__(self, x, *a, **k):
         inv = self.n
         self.n += 1
+        if (a, k) != self.extra:
+            # map_async(func, *args, **kwargs) hands its extra arguments to func after the element
+            raise TypeError("map_async called func with extra arguments %r %r, expected %r" % (
+                a, k, self.extra))
         if inv in self.fail_sync_at:
             # the mapped callable itself raises (before any awaitable exists)
             ex = Boom(("j", self.jid, inv))
